@@ -96,8 +96,16 @@ def dpss_summary(itp, args, kwargs, node, st):
 
 
 def cshift_summary(itp, args, kwargs, node, st):
+    """tools.cshift(data, offset) = deque(data).rotate(offset): offset>0 moves the last items to the front"""
     n = tonum(args[0])
-    return n.copy() if n is not None else TopV('cshift')
+    if n is None:
+        return TopV('cshift')
+    r = n.copy()
+    off = args[1] if len(args) > 1 else kwargs.get('offset')
+    if isinstance(args[0], Num) and args[0].seg is not None and isinstance(off, Const) and isinstance(off.v, (int, float)):
+        from . import segmap
+        r.seg = segmap.rotate(args[0].seg, int(off.v))
+    return r
 
 
 SUMMARIES = {
